@@ -1,6 +1,7 @@
 package backupfs
 
 import (
+	"errors"
 	"fmt"
 	"io/fs"
 	"os"
@@ -176,6 +177,10 @@ func (s *HiddenFS) RemoveAll(name string) error {
 	}
 
 	fi, err := s.Lstat(name)
+	if errors.Is(err, fs.ErrNotExist) {
+		// nothing to remove
+		return nil
+	}
 	if err != nil {
 		return &os.PathError{Op: "remove_all", Path: name, Err: err}
 	}
